@@ -17,3 +17,7 @@ import HypnoModel.Model.Intersect
 import HypnoModel.Drv.C20
 import HypnoModel.Lemmas.Intersect
 import HypnoModel.Props.C20
+import HypnoModel.Drv.All
+import HypnoModel.Gen.Spacing
+import HypnoModel.Lemmas.Spacing
+import HypnoModel.Props.C09
